@@ -68,6 +68,13 @@ theorem step_frame {cfg : Cfg} {plan : Plan} {s s' : State} {l : Label}
       obtain ⟨d, _, rfl⟩ := hs
       cases x <;> simp [State.setSide]
     · cases hs
+  | childClose x =>
+    simp only [step] at hs
+    split at hs
+    · simp only [Option.map_eq_some_iff] at hs
+      obtain ⟨d, _, rfl⟩ := hs
+      cases x <;> simp [State.setSide]
+    · cases hs
   | rdRead x =>
     simp only [step, Option.map_eq_some_iff] at hs
     obtain ⟨d, _, rfl⟩ := hs
@@ -249,6 +256,8 @@ theorem TimeInv.main {cfg plan} {s s' : State} (hi : Inv cfg plan s) (h : TimeIn
     · split at hs <;> cases hs <;> refine ⟨h1, h2, ?_, ?_, ?_, ?_⟩ <;> simp_all [Pc.okPath]
   | done r => simp [stepMain, hpc] at hs
   | preJoinWr => simp [stepMain, hpc] at hs
+  | drainFlag w => simp [stepMain, hpc] at hs
+  | blockWait => simp [stepMain, hpc] at hs
 
 /-- One step of a prompt execution. -/
 theorem TimeInv.step {cfg plan} {s s' : State} {l : Label} (hi : Inv cfg plan s)
@@ -342,6 +351,17 @@ def Pc.inWait : Pc → Bool
 the stdin pipe and its writer thread: it neither reads nor waits for them. -/
 theorem stepMain_inWait_indep (cfg : Cfg) (s : State) (i' : Inp) (hw : s.pc.inWait = true) :
     stepMain cfg { s with i := i' } = (stepMain cfg s).map (fun t => { t with i := i' }) := by
+  cases hpc : s.pc <;> simp only [hpc, Pc.inWait] at hw <;> try (cases hw)
+  all_goals simp only [stepMain, hpc]
+  all_goals (repeat' split) <;> simp_all
+
+/-- … nor at the reader threads, their buffers, the pipes, or what the child has done with its ends of
+them: in the wait loop and on the kill path the main thread's step is the same whatever the two
+stream sides are. End of file on a captured stream changes nothing about when the child and the clock
+are looked at. -/
+theorem stepMain_inWait_indep_sides (cfg : Cfg) (s : State) (o' e' : Side) (hw : s.pc.inWait = true) :
+    stepMain cfg { s with o := o', e := e' } =
+      (stepMain cfg s).map (fun t => { t with o := o', e := e' }) := by
   cases hpc : s.pc <;> simp only [hpc, Pc.inWait] at hw <;> try (cases hw)
   all_goals simp only [stepMain, hpc]
   all_goals (repeat' split) <;> simp_all
